@@ -192,7 +192,7 @@ def _split_directory(name_term, marker):
     return pieces, ""
 
 
-def template_rule(ctx, chk, rule, f, name_term, table, source_of, tail_spec, head):
+def template_rule(ctx, chk, rule, f, name_term, table, source_of, tail_spec, head, sx=None):
     """name_term: symbolic file name; table: [(prefix, parameter, through prob_to_str)]; source_of(param) -> expected hole term."""
     where = f.where()
     pieces, dir_note = _split_directory(name_term, "manual_robot_" if head.endswith("manual_robot_") else "robot_")
@@ -200,6 +200,28 @@ def template_rule(ctx, chk, rule, f, name_term, table, source_of, tail_spec, hea
         chk.undecided(rule, where, "file name `%s`: %s" % (show(name_term)[:160], dir_note))
         return
     text = "".join(v if k == "lit" else "{%s}" % show(v)[:40] for k, v in pieces)
+    from ..symx import mentions
+    def _value_called(x):
+        # `args.prob_tile_break(args.prob_tile_break)`: a parsed option (a number) used as a function - not a computed sequence
+        return x[0] == "apply" and x[1][0] == "attr" and mentions(x[1], lambda y: y[0] == "mcall" and y[2] == "parse_args")
+    opaque = [v for k, v in pieces if k == "hole" and mentions(v, lambda x: (x[0] in ("compr", "res", "apply") and not _value_called(x)) or (x[0] == "mcall" and x[2] in ("join", "format"))
+                                                              or (x[0] == "call" and x[1] in ("itertools.chain", "chain", "map", "zip", "itertools.starmap")))]
+    if opaque and sx is not None:
+        # parts joined from a FILTERED sequence: a part whose value fails the filter (a parameter that is 0, an empty text) vanishes
+        # from the name, and two parameter sets share one file
+        for v in opaque:
+            for t in C08_sub(v):
+                if t[0] == "mcall" and t[2] == "join" and t[3] and t[3][0][0] == "compr" and t[3][0][1] in sx.loops and sx.loops[t[3][0][1]].filters:
+                    L_ = sx.loops[t[3][0][1]]
+                    chk.violation(rule, where, "the name is joined from the parts that pass `%s`: a parameter whose part fails that test (a value of 0) is left out of the name, "
+                                  "so different parameter sets get the same file name" % show(L_.filters[0])[:60], expected="every parameter written, whatever its value",
+                                  found=show(t)[:100], construct="%s name parts filtered" % f.short)
+                    return
+    if opaque:
+        # the name is assembled from a computed sequence of parts (tag tables, map / chain / comprehensions): its pieces are not
+        # spelled out here
+        chk.undecided(rule, where, "file name `%s`: a piece is joined from a computed sequence (`%s`), the template is not spelled out" % (text[:120], show(opaque[0])[:60]))
+        return
     # expected alternation lit, hole, lit, hole ...
     i = 0
     ok = True
@@ -288,7 +310,7 @@ def r2_templates(ctx, chk, rule="C17.2"):
                         return True, "suffix '_force_down' iff the force_down flag"
                     return False, "`%s` is not ('_force_down' if force_down else '')" % show(h)
                 return False, "pieces %s" % [(k, v if k == "lit" else show(v)[:40]) for k, v in rest]
-            template_rule(ctx, chk, rule, f, name_term, MAIN_TABLE, lambda p: ("attr", pa, p), tail, "")
+            template_rule(ctx, chk, rule, f, name_term, MAIN_TABLE, lambda p: ("attr", pa, p), tail, "", sx=sx)
         # parser destinations: --seed etc. exist with the right dest names
         g = ctx.func("roberta_generator.py::init_parser")
         dests = set()
@@ -362,7 +384,7 @@ def r2_templates(ctx, chk, rule="C17.2"):
                         return None, "force-down condition `%s` not evaluated" % show(h[1])[:80]
                     return False, "`%s`" % show(h)
                 return False, "pieces %s" % [(k, v if k == "lit" else show(v)[:40]) for k, v in rest]
-            template_rule(ctx, chk, rule, f2, name_term, MANUAL_TABLE, src_of, tail2, "inputs/manual_robot_")
+            template_rule(ctx, chk, rule, f2, name_term, MANUAL_TABLE, src_of, tail2, "inputs/manual_robot_", sx=sx2)
 
 
 def r3_matrix_max(ctx, chk, rule="C17.4"):
